@@ -186,6 +186,8 @@ def spec_failures(mode, calls, R):
         f.append("getInfo(>= IndexSize) does not throw")
     if R["chk"] != "1" * N + "00":
         f.append("checkIndex wrong")
+    if R.get("copy") == "DIFFERS":
+        f.append("a copy of the prepared IndexClassification answers the same queries differently from the object it was copied from")
     return f
 
 
@@ -297,6 +299,10 @@ class IndexRunner:
             elif l.startswith("H "):
                 t = l.split()
                 res[int(t[1])]["H"] = dict(kv.split("=") for kv in t[2:])
+            elif l.startswith("K "):
+                t = l.split()
+                if "R" in res[int(t[1])]:
+                    res[int(t[1])]["R"]["copy"] = t[2]
         if want_model:
             rc2, mout, merr = pv.sh([self.drv], input=inp, timeout=900)
             if rc2 != 0:
